@@ -95,14 +95,21 @@ func (alloc *BitmapAllocator) setupPoolBitmaps() *kernel.Error {
 			return true
 		}
 
-		alloc.poolsHdr.Len++
-		alloc.poolsHdr.Cap++
-
 		// Reported addresses may not be page-aligned; round up to get
 		// the start frame and round down to get the end frame
 		regionStartFrame := mm.Frame(((uintptr(region.PhysAddress) + pageSizeMinus1) & ^pageSizeMinus1) >> mm.PageShift)
 		regionEndFrame := mm.Frame((uintptr(region.PhysAddress+region.Length) & ^pageSizeMinus1)>>mm.PageShift) - 1
-		pageCount := uint32(regionEndFrame - regionStartFrame)
+
+		// Regions that do not contain a whole page provide no frames
+		if regionEndFrame+1 <= regionStartFrame {
+			return true
+		}
+
+		alloc.poolsHdr.Len++
+		alloc.poolsHdr.Cap++
+
+		// The pool covers frames regionStartFrame to regionEndFrame inclusive
+		pageCount := uint32(regionEndFrame - regionStartFrame + 1)
 		alloc.totalPages += pageCount
 
 		// To represent the free page bitmap we need pageCount bits. Since our
@@ -145,7 +152,11 @@ func (alloc *BitmapAllocator) setupPoolBitmaps() *kernel.Error {
 
 		regionStartFrame := mm.Frame(((uintptr(region.PhysAddress) + pageSizeMinus1) & ^pageSizeMinus1) >> mm.PageShift)
 		regionEndFrame := mm.Frame((uintptr(region.PhysAddress+region.Length) & ^pageSizeMinus1)>>mm.PageShift) - 1
-		bitmapBytes := ((uintptr(regionEndFrame-regionStartFrame) + 63) &^ 63) >> 3
+		if regionEndFrame+1 <= regionStartFrame {
+			return true
+		}
+
+		bitmapBytes := ((uintptr(regionEndFrame-regionStartFrame+1) + 63) &^ 63) >> 3
 
 		alloc.pools[poolIndex].startFrame = regionStartFrame
 		alloc.pools[poolIndex].endFrame = regionEndFrame
